@@ -235,8 +235,13 @@ func c10(r *Run) {
 				use, at, desc = oldTok, oldAt, "older token of the same IP"
 			}
 		}
-		if use == tok && variant != 0 && variant != 8 {
-			exact = true // mutation happened to reproduce the token (cannot, but be safe)
+		if use == tok && variant >= 1 && variant <= 5 {
+			exact = true // a byte-level mutation that happened to reproduce the token (cannot, but be safe)
+		}
+		// A token issued to another IP or by another server stays a foreign token even if it is
+		// byte-identical: tokens that do not depend on the issuing node or on the IP are the defect.
+		if (variant == 6 || variant == 7) && use == tok {
+			r.Probe("foreign-token-identical")
 		}
 		// elapsed time, dense around the rotation-relevant instants
 		var delta time.Duration
